@@ -105,7 +105,7 @@ func TestVerifC19_mhcv_invalid(t *testing.T) {
 			c19M(4, 2, 3),
 		},
 		Shares:     []int{2, 3},
-		Seeds:      r.Pick(2, 5),
+		Seeds:      r.Pick(2, 3),
 		ProductCap: r.Pick(4096, 65536),
 		SetLimit:   4096,
 	}
